@@ -324,6 +324,7 @@ impl FunctionDefinition for TallyFunction {
                     v.extend_from_slice(&a);
                     Some(LhsValue::Bytes(v.into()))
                 }
+                None if n == 0 => Some(LhsValue::Bytes(format!("tally:{}|", desc).into_bytes().into())),
                 _ => None,
             }
         })
@@ -389,6 +390,9 @@ pub fn add_lib_fn(b: &mut SchemeBuilder, name: &str, lib: &str) -> Option<()> {
                 inner: simple(vec![(Field, Type::Bytes), (Both, Type::Int)], vec![], Type::Bytes, first_ok),
             },
         ),
+        // the same definition without parameters: `tally0()` - the context must exist although no
+        // argument is ever checked
+        "tally0" => b.add_function(name, TallyFunction { inner: simple(vec![], vec![], Type::Bytes, first_ok) }),
         "concat" => b.add_function(name, ConcatFunction::new()),
         _ => return None,
     };
